@@ -21,7 +21,9 @@ RULE = ("case = a history of <= 30 steps over named variables drawn by Hypothesi
         "formula(nested [(n, fragment)] lists/tuples), formula(Formula); operators v=f+g, v=n*f with n in "
         "{0, 1, integers, decimals and floats in [1e-6, 1e6]}, f+=g; operands chosen by index, f+f, f+=f included; "
         "constructors also with the atoms of a private table (formula(str, table=T), T's atoms), f.change_table(T) "
-        "and back, 'again' = an earlier constructor once more). "
+        "and back, 'again' = an earlier constructor once more; counts written as zero ('0.', '0.0', '.0', '.00') in "
+        "any position of a string; the empty formula made by formula(''), formula(), formula(None), Formula(), "
+        "formula([]), formula({}) with name/density keywords, as operand and as receiver of +=). "
         "Oracle: a Fraction model per variable updated by the algebra; after every step the new/changed variable "
         "(and, again, each operand of the step) has atoms == model (exact where the library's count is an int, rel 1e-12 otherwise; an atom with count 0 counts as absent), "
         "mass == sum n*(m(base atom) - charge*electron_mass) (rel 1e-12), charge == sum n*charge "
@@ -234,7 +236,7 @@ def check_history(ctx, history):
 
 def task_histories(ctx, n, steps=30):
     E = ops.env()
-    ctx.search("histories", ops.history(E["pool"], max_steps=steps, tables=True), check_history, n)
+    ctx.search("histories", ops.history(E["pool"], max_steps=steps, tables=True, zeros=True, empties=True), check_history, n)
 
 
 def tasks(tier):
